@@ -23,7 +23,8 @@ SIZES = [1, 1, 2, 2, 3, 8]
 
 
 def _fail(rng, n):
-    return {'idx': [rng.randrange(max(1, n))], 'exc': rng.choice(['ExcA', 'ExcB', 'ExcC', 'KeyError'])}
+    k = rng.choice([1, 1, 2, 3])  # several failing elements: the FIRST in stream order must reach the consumer, the others must not leak out
+    return {'idx': sorted(set(rng.randrange(max(1, n)) for _ in range(k))), 'exc': rng.choice(['ExcA', 'ExcB', 'ExcC', 'KeyError'])}
 
 
 def gen(rng, tier):
